@@ -68,7 +68,12 @@ class ConcRunner:
         self.sched.inject = inject
         self.shared = None
         if cfg.get('shared'):
+            # shared = 1: one object for all clients; 2: clients 1 and 2 share one, the others have their own
             self.shared = self.make_handle()
+            # threads sharing an object also share its Python-level state: let them interleave inside a held
+            # transaction and straight after the lock is released
+            self.sched.yield_in_txn = True
+            self.sched.yield_after_release = True
         self.caches = {}
         self.nreal = max(program)
 
@@ -282,14 +287,15 @@ class ConcRunner:
                 self.sched.yield_point('call', 'iter_close')
                 got.extend(it)
                 self.sched.emit({'ev': 'ret', 'c': pc, 'ret': R('keys', [self.km.to_model(k) for k in got])})
-            if self.shared is None:
+            if cache is not self.shared:
                 (cache.cache if self.kind in ('deque', 'index') else cache).close()
         return body
 
     def run(self):
         try:
             for cid, ops in sorted(self.program.items()):
-                cache = self.shared if self.shared is not None else self.make_handle()
+                share = self.shared is not None and (self.cfg.get('shared') == 1 or cid <= 2)
+                cache = self.shared if share else self.make_handle()
                 self.caches[cid] = cache
                 # per-thread connection is opened (and its pragmas set) before the scheduled part
                 warm = cache.__enter__ if self.kind == 'cache' else (lambda cc=cache: len(cc))
